@@ -35,7 +35,8 @@ Karatsuba multiplication (`≥ 129` limbs; inside the property's 65..2048-digit 
 against the real routine's result *and* scratch arrays).  `karatsuba_refuted` (kernel-checked, from a
 `wide_integer<1568, uint8_t>` witness) shows the full statement `KaratsubaCorrect` is false: when halving the
 limb count reaches an odd count above the schoolbook cutoff 48 (`karaOddSplit`), a limb of each operand is dropped
-and two limbs of the uninitialised result array are read; `karatsuba_indeterminate` shows the product then
+and two limbs of the uninitialised result array are read (`karatsuba_odd_level_ignores_top_limbs`: for all
+widths and operands, such a level does not look at the top limb of either operand); `karatsuba_indeterminate` shows the product then
 depends on what those arrays held.  Defect class `C10.karatsuba_odd_split` = `karaDefect n`
 (`karaDefect_instantiable`: exactly the limb counts 196, 204, …, 252 = 4·m, m odd, 49 ≤ m ≤ 63, i.e. 8-bit-limb
 widths 1568, 1632, 1696, 1760, 1824, 1888, 1952, 2016).  **Not proved**: `KaratsubaCorrectEvenSplit` (the
@@ -237,27 +238,36 @@ theorem binOp_spec {f : Fmt} {a b : Limbs} (op : BinOp) (hop : op ≠ .shl ∧ o
 
 /-! ## Part 2b — `operator*` with 129 limbs or more: the Karatsuba overload of `eval_mul_unary`
 
-`opMulWith w init a b` runs `Cnl.Wide.kara`, the transcription of `eval_multiply_kara_n_by_n_to_2n` with its
-in-place memory; `init` is what the two local arrays `result` (2n limbs) and `t` (4n limbs), which the C++
-declares without initialiser, hold on entry. -/
+`opMulWith w init a b` runs `Cnl.Wide.kara`, the transcription of `eval_multiply_kara_n_by_n_to_2n` (as repaired in
+38967ec) with its in-place memory; `init` is what the two local arrays `result` (2n limbs) and `t` (4n limbs), which
+the C++ declares without initialiser, hold on entry.  `opMulWithOrig`/`karaOrig` are the routine before the repair. -/
 
-/-- FULL statement (false): `*` is exact modulo `2^N` on the Karatsuba overload too, whatever the
-uninitialised local arrays hold -/
+/-- FULL statement: `*` is exact modulo `2^N` on the Karatsuba overload too, whatever the uninitialised local
+arrays hold -/
 def KaratsubaCorrect : Prop :=
   ∀ (f : Fmt) (init : Limbs × Limbs) (a b : Limbs), 1 ≤ f.w → karaThreshold ≤ f.n → Val f a → Val f b →
     toInt f (opMulWith f.w init a b) = wrapTwos f.N f.signed (toInt f a * toInt f b)
 
-/-- what is conjectured to hold and is NOT proved here: the Karatsuba overload is exact on every limb count
-whose repeated halving meets no odd count above the cutoff (all other instantiable counts in 129..256).
-Evidence: differential harness + `example`s below. -/
-def KaratsubaCorrectEvenSplit : Prop :=
-  ∀ (f : Fmt) (init : Limbs × Limbs) (a b : Limbs), 1 ≤ f.w → karaThreshold ≤ f.n → karaOddSplit f.n = false →
-    Val f a → Val f b →
-    toInt f (opMulWith f.w init a b) = wrapTwos f.N f.signed (toInt f a * toInt f b)
+/-- the same statement about the routine before 38967ec (false: `karatsuba_unrepaired_refuted`) -/
+def KaratsubaCorrectUnrepaired : Prop :=
+  ∀ (f : Fmt) (init : Limbs × Limbs) (a b : Limbs), 1 ≤ f.w → karaThreshold ≤ f.n → Val f a → Val f b →
+    toInt f (opMulWithOrig f.w init a b) = wrapTwos f.N f.signed (toInt f a * toInt f b)
 
-/-- `wide_integer<1568, uint8_t>`: 196 limbs of 8 bits, unsigned; 196 → 98 → 49, and 49 > 48 is split 24 + 24 -/
+/-- the cause, for every limb width and all operands: a call of the unrepaired routine with an odd `n > 48` does
+not look at the top limb of either operand (`nh = n / 2` twice covers `n − 1` limbs) — two operand pairs that agree
+on their low `n − 1` limbs leave identical result and scratch arrays -/
+theorem karatsuba_unrepaired_odd_level_ignores_top_limbs (w fuel n : Nat) (a a' b b' r t : Limbs)
+    (hn : karaCutoff < n) (hodd : n % 2 = 1)
+    (ha : a.take (n - 1) = a'.take (n - 1)) (hb : b.take (n - 1) = b'.take (n - 1)) :
+    karaOrig w (fuel + 1) n a b r t = karaOrig w (fuel + 1) n a' b' r t :=
+  Kara.karaOrig_odd_drops_top_limbs w fuel n a a' b b' r t hn hodd ha hb
+
+-- e.g. 49 limbs: [0,…,0,1] and [0,…,0,200] agree on the low 48 limbs
+example : (zeros 48 ++ [1]).take (49 - 1) = (zeros 48 ++ [200]).take (49 - 1) := by decide
+
+/-- `wide_integer<1568, uint8_t>`: 196 limbs of 8 bits, unsigned; 196 → 98 → 49, and 49 > 48 was split 24 + 24 -/
 def fmt1568 : Fmt := ⟨8, 196, false⟩
-/-- `2^384`: the only non-zero limb is limb 48, the one the 49-limb level drops -/
+/-- `2^384`: the only non-zero limb is limb 48, the one the 49-limb level dropped -/
 def w2p384 : Limbs := zeros 48 ++ [1] ++ zeros 147
 def wOne : Limbs := 1 :: zeros 195
 /-- every limb `0xFF` (`2^1568 − 1`) -/
@@ -265,12 +275,13 @@ def wAllOnes : Limbs := List.replicate 196 255
 
 theorem fmt1568_defect : karaDefect fmt1568.n = true := by decide
 
-/-- `2^384 · 1 = 0` in `wide_integer<1568, uint8_t>` when the local arrays happen to be zero-filled -/
-theorem karatsuba_drops_limb : toNat 8 (opMulWith 8 ([], []) w2p384 wOne) = 0 ∧ toNat 8 w2p384 * toNat 8 wOne = 2^384 := by
+/-- before the repair: `2^384 · 1 = 0` in `wide_integer<1568, uint8_t>` when the local arrays happen to be zero-filled -/
+theorem karatsuba_unrepaired_drops_limb :
+    toNat 8 (opMulWithOrig 8 ([], []) w2p384 wOne) = 0 ∧ toNat 8 w2p384 * toNat 8 wOne = 2^384 := by
   decide +kernel
 
-/-- the full statement is refuted by that witness (kernel evaluation of the transcription) -/
-theorem karatsuba_refuted : ¬ KaratsubaCorrect := by
+/-- the statement about the unrepaired routine is refuted by that witness (kernel evaluation of the transcription) -/
+theorem karatsuba_unrepaired_refuted : ¬ KaratsubaCorrectUnrepaired := by
   intro h
   have hv : ∀ l : Limbs, l.length = 196 → (l.all (· < 2^8)) = true → Val fmt1568 l := by
     intro l hl hall
@@ -280,46 +291,48 @@ theorem karatsuba_refuted : ¬ KaratsubaCorrect := by
   have := h fmt1568 ([], []) w2p384 wOne (by decide) (by decide) (hv _ (by decide +kernel) (by decide +kernel)) (hv _ (by decide +kernel) (by decide +kernel))
   exact absurd this (by decide +kernel)
 
-/-- dense operands: `(2^1568 − 1)²` is wrong as well -/
-theorem karatsuba_refuted_dense :
-    toNat 8 (opMulWith 8 ([], []) wAllOnes wAllOnes) ≠ (toNat 8 wAllOnes * toNat 8 wAllOnes) % 2^(8 * 196) := by
+/-- dense operands: `(2^1568 − 1)²` was wrong as well -/
+theorem karatsuba_unrepaired_refuted_dense :
+    toNat 8 (opMulWithOrig 8 ([], []) wAllOnes wAllOnes) ≠ (toNat 8 wAllOnes * toNat 8 wAllOnes) % 2^(8 * 196) := by
   decide +kernel
 
-/-- the product is not a function of the operands: the same `2^384 · 1` with the `result` array holding `0xA5`
-bytes on entry differs from the zero-filled run (the routine reads limbs it never wrote) -/
-theorem karatsuba_indeterminate :
-    opMulWith 8 (List.replicate 392 0xA5, []) w2p384 wOne ≠ opMulWith 8 ([], []) w2p384 wOne := by
+/-- the unrepaired product was not a function of the operands: the same `2^384 · 1` with the `result` array holding
+`0xA5` bytes on entry differs from the zero-filled run (the routine read limbs it never wrote) -/
+theorem karatsuba_unrepaired_indeterminate :
+    opMulWithOrig 8 (List.replicate 392 0xA5, []) w2p384 wOne ≠ opMulWithOrig 8 ([], []) w2p384 wOne := by
   decide +kernel
 
-/-- the clause "results do not depend on how the value is split into limbs" fails across the threshold: `2^384 · 1`
-as 49 limbs of 32 bits (schoolbook) is `2^384`, as 196 limbs of 8 bits (Karatsuba, zero-filled arrays) it is `0` -/
-theorem limb_split_dependent_product :
+/-- before the repair the clause "results do not depend on how the value is split into limbs" failed across the
+threshold: `2^384 · 1` as 49 limbs of 32 bits (schoolbook) is `2^384`, as 196 limbs of 8 bits (zero-filled arrays) `0` -/
+theorem karatsuba_unrepaired_limb_split_dependent :
     toNat 32 (opMul 32 (zeros 12 ++ [1] ++ zeros 36) (1 :: zeros 48)) = 2^384
-    ∧ toNat 8 (opMul 8 w2p384 wOne) = 0
+    ∧ toNat 8 (opMulWithOrig 8 ([], []) w2p384 wOne) = 0
     ∧ toNat 32 (zeros 12 ++ [1] ++ zeros 36) = toNat 8 w2p384 ∧ toNat 32 (1 :: zeros 48) = toNat 8 wOne := by
   decide +kernel
 
 /-- limb counts for which `uintwide_t` instantiates with 8-bit limbs: the width `8·n` must be `2^k·m`, `m ≤ 63` -/
 def instantiable8 (n : Nat) : Bool := (List.range 64).any fun m => (List.range 12).any fun j => n == 2^j * m
 
-/-- the defect class, listed: of the limb counts 129..256 that instantiate (8-bit limbs, widths 1032..2048 bits),
-exactly 4·m for odd m in 49..63 take an odd split — widths 1568, 1632, 1696, 1760, 1824, 1888, 1952, 2016 -/
+/-- the former defect class, listed: of the limb counts 129..256 that instantiate (8-bit limbs, widths 1032..2048
+bits), exactly 4·m for odd m in 49..63 took an odd split — widths 1568, 1632, 1696, 1760, 1824, 1888, 1952, 2016 -/
 theorem karaDefect_instantiable :
     ((List.range 257).filter fun n => instantiable8 n && karaDefect n) = [196, 204, 212, 220, 228, 236, 244, 252]
     ∧ ((List.range 257).filter fun n => instantiable8 n && decide (karaThreshold ≤ n) && !karaDefect n)
         = [132, 136, 140, 144, 148, 152, 156, 160, 164, 168, 172, 176, 180, 184, 188, 192, 200, 208, 216, 224, 232, 240, 248, 256] := by
   decide +kernel
 
-/-- an odd split needs more than 48 limbs: below the Karatsuba threshold nothing is affected, and a power of two
-never is -/
 theorem karaDefect_needs_threshold (n : Nat) (h : n < karaThreshold) : karaDefect n = false := by
   unfold karaDefect
   simp [Nat.not_le.mpr h]
 
--- tests (kernel-evaluated instances, not theorems about all inputs): even-split Karatsuba instantiations are exact
--- wide_integer<1056, uint8_t>, 132 limbs (132 → 66 → 33): (0xFE…FE)², carries in every column
+-- tests of the REPAIRED routine (kernel-evaluated instances)
+-- wide_integer<1056, uint8_t>, 132 limbs (132 → 66 → 33 odd: schoolbook): (0xFE…FE)², carries in every column
 example : toNat 8 (opMul 8 (List.replicate 132 0xFE) (List.replicate 132 0xFE))
     = (toNat 8 (List.replicate 132 0xFE) * toNat 8 (List.replicate 132 0xFE)) % 2^(8 * 132) := by decide +kernel
+-- wide_integer<1568, uint8_t>, 196 limbs (→ 98 → 49 odd: schoolbook), dirty arrays: the former witnesses are right now
+example : toNat 8 (opMulWith 8 (List.replicate 392 0xA5, List.replicate 784 0x5A) w2p384 wOne) = 2^384 := by decide +kernel
+example : toNat 8 (opMulWith 8 (List.replicate 392 0xA5, []) wAllOnes wAllOnes) = (toNat 8 wAllOnes * toNat 8 wAllOnes) % 2^(8 * 196) := by
+  decide +kernel
 -- wide_integer<2048, uint8_t>, 256 limbs (→ 128 → 64 → 32), dirty arrays: (2^2048 − 1)² = 1 mod 2^2048
 example : toNat 8 (opMulWith 8 (List.replicate 512 0xA5, List.replicate 1024 0x5A) (List.replicate 256 255) (List.replicate 256 255)) = 1 := by
   decide +kernel
